@@ -1,5 +1,182 @@
-//! (to be filled)
-pub fn main(_args: &[String]) -> i32 {
-    eprintln!("not implemented");
-    2
+//! xp-session (C19): series of queries - succeeding and failing - on ONE evaluation context and ONE
+//! document.  After every query the harness records what is observable through the public API:
+//! Context::get_position / get_size, the answer, the answer of the same query on a fresh context and a
+//! fresh parse, whether the document's serialization and every node's order key are unchanged; and once per
+//! session whether parsing the same text twice gives equal documents.  Trace_Session.tla judges.
+//!
+//!   xp-session --in REPLAY --trace OUT --stats OUT [--sample N]     sessions enumerated by MC_Session
+//!   xp-session --random N --seed S --trace OUT                      random sessions on random documents
+
+use super::gen;
+use super::{eval_fresh, load_doc, value_json, Doc};
+use crate::util::*;
+use serde_json::{json, Value as J};
+use std::io::Write;
+use xml_dom::{AsNode, Node, XmlNode};
+use xml_xpath::eval::model::Context;
+
+fn order_keys(doc: &Doc) -> Vec<(usize, usize)> {
+    fn walk(n: &XmlNode, out: &mut Vec<(usize, usize)>) {
+        out.push((n.id(), n.order()));
+        if let Some(attrs) = n.attributes() {
+            for a in attrs.iter() {
+                let a = a.as_node();
+                out.push((a.id(), a.order()));
+            }
+        }
+        for c in n.child_nodes().iter() {
+            walk(&c, out);
+        }
+    }
+    let mut out = vec![];
+    let _ = guarded(|| walk(&doc.dom.as_node(), &mut out));
+    out
+}
+
+/// Run one session; `qs` are 1-based indices into `exprs`.
+fn run_session(text: &str, tree: &J, binds: &J, exprs: &[String], qs: &[usize]) -> Result<(Vec<J>, bool, bool), String> {
+    let doc = load_doc(text, tree)?;
+    let ser0 = guarded(|| doc.dom.to_string()).unwrap_or_default();
+    let ord0 = order_keys(&doc);
+    let mut ctx = Context::default();
+    if let Some(a) = binds.as_array() {
+        for b in a {
+            ctx.add_ns(Some(cps_to_string(&b[0]).as_str()), cps_to_string(&b[1]).as_str());
+        }
+    }
+    let mut steps = vec![];
+    for &q in qs {
+        let expr = &exprs[q - 1];
+        let obs = match guarded(|| match xml_xpath::query(doc.dom.clone(), expr, &mut ctx) {
+            Ok(v) => value_json(&doc, &v),
+            Err(e) => json!({"t": "err", "msg": e.to_string()}),
+        }) {
+            Ok(j) => j,
+            Err(p) => json!({"t": "panic", "msg": p}),
+        };
+        let pos = ctx.get_position();
+        let size = ctx.get_size();
+        let ser_same = guarded(|| doc.dom.to_string()).map(|s| s == ser0).unwrap_or(false);
+        let order_same = order_keys(&doc) == ord0;
+        // the same query on a fresh context and a fresh parse
+        let fresh = match load_doc(text, tree) {
+            Ok(d2) => eval_fresh(&d2, expr, binds),
+            Err(e) => json!({"t": "err", "msg": e}),
+        };
+        steps.push(json!({"obs": obs, "fresh": fresh, "pos": pos, "size": size,
+                          "ser_same": ser_same, "order_same": order_same}));
+    }
+    // parsing the same text twice
+    let (eq, ser_eq) = match (load_doc(text, tree), load_doc(text, tree)) {
+        (Ok(a), Ok(b)) => (
+            guarded(|| a.dom == b.dom).unwrap_or(false),
+            guarded(|| a.dom.to_string() == b.dom.to_string()).unwrap_or(false),
+        ),
+        _ => (false, false),
+    };
+    Ok((steps, eq, ser_eq))
+}
+
+fn same(a: &J, b: &J) -> bool {
+    let t = a["t"].as_str().unwrap_or("");
+    t == b["t"].as_str().unwrap_or("-")
+        && match t {
+            "err" => true,
+            "num" => a["n"]["cls"] == b["n"]["cls"] && a["n"]["v"] == b["n"]["v"] && a["n"]["cls"] != "other",
+            _ => a["v"] == b["v"],
+        }
+}
+
+pub fn main(args: &[String]) -> i32 {
+    let trace = arg_value(args, "--trace").unwrap_or("-");
+    let mut w = open_out(trace);
+    if let Some(n) = arg_value(args, "--random") {
+        let n: usize = n.parse().unwrap_or(100);
+        let seed: u64 = arg_value(args, "--seed").and_then(|s| s.parse().ok()).unwrap_or(1);
+        for ev in gen::random_sessions(seed, n) {
+            let text = cps_to_string(&ev["text"]);
+            let exprs: Vec<String> = ev["exprs"].as_array().unwrap().iter().map(cps_to_string).collect();
+            let qs: Vec<usize> = ev["qs"].as_array().unwrap().iter().map(|q| q.as_u64().unwrap() as usize).collect();
+            let mut ev = ev;
+            match run_session(&text, &ev["tree"], &ev["binds"], &exprs, &qs) {
+                Ok((steps, eq, ser_eq)) => {
+                    ev["steps"] = json!(steps);
+                    ev["reparse_eq"] = json!(eq);
+                    ev["reparse_ser_eq"] = json!(ser_eq);
+                }
+                Err(e) => {
+                    ev["k"] = json!("doc");
+                    ev["error"] = json!(e);
+                }
+            }
+            writeln!(w, "{}", ev).unwrap();
+        }
+        w.flush().unwrap();
+        return 0;
+    }
+    let inp = arg_value(args, "--in").unwrap_or("-");
+    let stats_path = arg_value(args, "--stats");
+    let sample: u64 = arg_value(args, "--sample").and_then(|s| s.parse().ok()).unwrap_or(20);
+    let mut sdoc: Option<J> = None;
+    let mut sessions = 0u64;
+    let mut queries = 0u64;
+    let mut fast_ok = 0u64;
+    let mut traced = 0u64;
+    let mut samples: Vec<J> = vec![];
+    for_each_case(inp, |case| match case["k"].as_str().unwrap_or("") {
+        "sdoc" => sdoc = Some(case),
+        "session" => {
+            let sd = match &sdoc {
+                Some(s) => s,
+                None => return,
+            };
+            sessions += 1;
+            let text = cps_to_string(&sd["text"]);
+            let exprs: Vec<String> = sd["exprs"].as_array().unwrap().iter().map(cps_to_string).collect();
+            let qs: Vec<usize> = case["qs"].as_array().unwrap().iter().map(|q| q.as_u64().unwrap() as usize).collect();
+            queries += qs.len() as u64;
+            let mut ev = json!({"k": "session", "tree": sd["tree"], "text": sd["text"], "binds": sd["binds"],
+                                "asts": sd["asts"], "exprs": sd["exprs"], "qs": case["qs"]});
+            let mut ok = true;
+            match run_session(&text, &sd["tree"], &sd["binds"], &exprs, &qs) {
+                Ok((steps, eq, ser_eq)) => {
+                    for (i, s) in steps.iter().enumerate() {
+                        if !(same(&s["obs"], &case["exp"][i]) && same(&s["fresh"], &s["obs"]) && s["pos"] == 0 && s["size"] == 0
+                            && s["ser_same"] == true && s["order_same"] == true)
+                        {
+                            ok = false;
+                        }
+                    }
+                    ok = ok && eq && ser_eq;
+                    if samples.len() < 4 && sessions % 397 == 1 {
+                        samples.push(json!({"document": text, "queries": qs.iter().map(|&q| exprs[q - 1].clone()).collect::<Vec<_>>(),
+                                            "steps": steps}));
+                    }
+                    ev["steps"] = json!(steps);
+                    ev["reparse_eq"] = json!(eq);
+                    ev["reparse_ser_eq"] = json!(ser_eq);
+                }
+                Err(e) => {
+                    ok = false;
+                    ev["k"] = json!("doc");
+                    ev["error"] = json!(e);
+                }
+            }
+            if ok {
+                fast_ok += 1;
+            }
+            if !ok || (sample > 0 && sessions % sample == 0) {
+                writeln!(w, "{}", ev).unwrap();
+                traced += 1;
+            }
+        }
+        _ => {}
+    });
+    w.flush().unwrap();
+    let stats = json!({"sessions": sessions, "queries": queries, "fast_ok": fast_ok, "traced": traced, "samples": samples});
+    if let Some(p) = stats_path {
+        let mut f = open_out(p);
+        writeln!(f, "{}", stats).unwrap();
+    }
+    0
 }
